@@ -381,6 +381,42 @@ func runC03(c *Ctx) {
 			c.ruleValueAsRead("I4-positional", spec[0]+".Evaluate#result-of-the-injected-call", f, func(call *ssa.Call) bool {
 				return calleeIs(call, pContext, "DataContext", exec)
 			}, 1, "a call node must yield the first result of DataContext."+exec+" for its own name, unchanged")
+			// ... and the call is always made: the only way to a return that avoids the Exec* call is the
+			// failure of the argument evaluation. What the receiver or the function is -- a nil pointer
+			// with nil-safe methods, say -- is the host's business, not the node's
+			x := c.Index(f)
+			argFail := map[edgeKey]bool{}
+			for _, b := range f.Blocks {
+				iff, isIf := b.Instrs[len(b.Instrs)-1].(*ssa.If)
+				if !isIf {
+					continue
+				}
+				v, neq, isNil := nilCheck(iff.Cond)
+				if !isNil {
+					continue
+				}
+				ex, isEx := x.Origin(v).(*ssa.Extract)
+				if !isEx || ex.Index != 1 {
+					continue
+				}
+				if call, isCall := ex.Tuple.(*ssa.Call); isCall && calleeIs(call, pBase, "Args", "Evaluate") {
+					if neq {
+						argFail[edgeKey{b, 0}] = true
+					} else {
+						argFail[edgeKey{b, 1}] = true
+					}
+				}
+			}
+			isExec := func(in ssa.Instruction) bool {
+				call, ok := in.(*ssa.Call)
+				return ok && calleeIs(call, pContext, "DataContext", exec)
+			}
+			at, refused := pathExistsEB(f, nil, isReturn, argFail, isExec)
+			pos := f.Pos()
+			if refused && at != nil {
+				pos = at.Pos()
+			}
+			c.Check("I4-positional", spec[0]+".Evaluate#call-always-made", !refused, pos, "%s.Evaluate can return without having called DataContext.%s although its arguments were evaluated: the node refuses a call the host's object might accept", spec[0], exec)
 		}
 	}
 	// ---- I6: the element addressed is the one named by the key, the value stored is the one assigned
